@@ -103,3 +103,29 @@ def ext_form_children_leak_dicts(disc, case) -> bool:
                     for t in f.get('tags', []) + f.get('pronunciations', []):
                         pool.append(_k(canon(t)))
     return all(_k(x) in pool for x in extras)
+
+
+def ext_rows_leak(disc, case) -> bool:
+    """Rows of the logical dump of tables tags/pronunciations: the database holds the
+    expected rows plus rows an extension contributed to a base form (no owner column,
+    so they survive the extension's removal)."""
+    exp, got = disc.expected, disc.got
+    if not isinstance(exp, list) or not isinstance(got, list):
+        return False
+    exp_k = [_k(x) for x in exp]
+    extras = []
+    for g in got:
+        k = _k(g)
+        if k in exp_k:
+            exp_k.remove(k)
+        else:
+            extras.append(g)
+    if exp_k or not extras:
+        return False
+    tags, prons = _extension_form_children(case)
+    def nz(row):
+        return [None if c == '' else c for c in row]
+
+    pool = [_k(nz(t)) for t in tags] + \
+           [_k(nz([p[0], p[1], p[2], int(p[3]), p[4]])) for p in prons]
+    return all(isinstance(r, list) and _k(nz(r[4:])) in pool for r in extras)
